@@ -362,3 +362,57 @@ func VerifC11_Releases_KeepArrivalOrder() {
 	}
 	verif.Reach("end")
 }
+
+// VerifC11_ArrivalKeepsOrder: two callers are parked (their contexts may have been cancelled at any
+// instant - with the default configuration they keep waiting); a third caller arrives through the
+// real Acquire while the backlog is full (bound 2) or has room (bound 3); then one release.  The
+// release re-acquires on behalf of the caller the configured order puts first among those queued:
+// FIFO the oldest parked caller; LIFO the newcomer if it was admitted, else the newest parked one.
+// A newcomer that found the backlog full is refused and never queued (it displaces nobody).
+//
+//verif:harness property=C11 theory=bv tier=quick replay=engine timers=off
+func VerifC11_ArrivalKeepsOrder() {
+	d := &recLimiter{}
+	verifGrantAll = false
+	lifo := verif.Choice("ordering", 2) == 1
+	ord := OrderingFIFO
+	if lifo {
+		ord = OrderingLIFO
+	}
+	room := verif.Choice("room", 2) == 1
+	bound := 2
+	if room {
+		bound = 3
+	}
+	q := NewQueueBlockingLimiterFromConfig(d, QueueLimiterConfig{Ordering: ord, MaxBacklogSize: bound, MaxBacklogTimeout: time.Hour})
+	var ctxs [2]context.Context
+	names := []string{"w0", "w1"}
+	for i := 0; i < 2; i++ {
+		ctxs[i] = context.WithValue(verif.CancelCtx(names[i]), "waiter", i)
+		_, ch := q.backlog.push(ctxs[i])
+		verif.Offer(ch, true, nil)
+	}
+	ctxN := context.WithValue(context.Background(), "waiter", 2)
+	d.alwaysNo = true // the newcomer's own attempt at the delegate is refused: it has to queue
+	newcomerReturned := false
+	go func() {
+		q.Acquire(ctxN)
+		newcomerReturned = true
+	}()
+	d.alwaysNo = false
+	verifGrantAll = true
+	verif.Assert("full-backlog-refuses-newcomer-at-once", room || (newcomerReturned && q.backlog.len() == 2))
+	verif.Assert("backlog-with-room-queues-newcomer", !room || (!newcomerReturned && q.backlog.len() == 3))
+	calls := d.calls
+	(&QueueBlockingListener{delegateListener: &recListener{}, limiter: q}).OnSuccess()
+	verif.Assert("release-reacquires-once", d.calls == calls+1)
+	want := ctxs[0]
+	if lifo {
+		want = ctxs[1]
+		if room {
+			want = ctxN
+		}
+	}
+	verif.Assert("release-serves-configured-head-after-arrival", d.ctxs[calls] == want)
+	verif.Reach("end")
+}
